@@ -2,8 +2,127 @@ import NibabelModel.Model.C03
 import Driver.Util
 /-! Line-protocol driver for C03: `C03 <op> <args...>` -> one observable line. -/
 namespace Nb.Drv.C03
+open Nb Nb.C06 Nb.C03
+
+def parseItem? (s : String) : Option IdxItem :=
+  if s = "n" then some .newaxis
+  else if s = "e" then some .ellipsis
+  else if s.startsWith "i" then (s.drop 1).toString.toInt?.map IdxItem.int
+  else if s.startsWith "s" then
+    match ((s.drop 1).toString.splitOn ",").mapM parseOptInt? with
+    | some [a, b, c] => some (.slice ⟨a, b, c⟩)
+    | _ => none
+  else none
+
+def parseIdx? (s : String) : Option (List IdxItem) :=
+  if s = "-" then some [] else (s.splitOn ";").mapM parseItem?
+
+def parseOrder? (s : String) : Option Order :=
+  if s = "C" then some .C else if s = "F" then some .F else none
+
+def showOpt (l : List (Option Nat)) : String :=
+  "[" ++ ",".intercalate (l.map (fun o => match o with | some v => toString v | none => "?")) ++ "]"
+
+def showRes {α} [ToString α] : Except Err (List Nat × List α) → String
+  | .ok (sh, d) => "ok " ++ showList sh ++ " " ++ showList d
+  | .error _ => "ERR"
+
+def parseHdrOp? (s : String) : Option HdrOp :=
+  match s.splitOn ":" with
+  | ["shape", v] => (parseNatList? v).map HdrOp.setShape
+  | ["isz", v] => v.toNat?.map HdrOp.setIsz
+  | ["off", v] => v.toNat?.map HdrOp.setOff
+  | ["si", a, b] => match parseOptInt? a, parseOptInt? b with
+      | some a, some b => some (HdrOp.setSlopeInter a b)
+      | _, _ => none
+  | _ => none
+
+def showParams (p : Params Int) : String :=
+  showList p.shape ++ " " ++ toString p.isz ++ " " ++ toString p.off ++ " " ++ toString p.slope ++ " " ++
+    toString p.inter
 
 def handle : List String → String
+  -- generic ArrayProxy: raw element numbers of proxy[idx]
+  | ["px", ord, thr, isz, off, shape, idx] =>
+      match parseOrder? ord, thr.toNat?, isz.toNat?, off.toNat?, parseNatList? shape, parseIdx? idx with
+      | some o, some thr, some isz, some off, some shape, some idx =>
+          let p : Params Unit := ⟨shape, isz, off, o, (), ()⟩
+          showRes (getUnscaled (thresholdHeuristic thr) p idx)
+      | _, _, _, _, _, _ => "bad-op"
+  -- reshaped proxy: proxy.reshape(newshape)[idx]
+  | ["rs", ord, dflt, thr, isz, off, shape, newshape, idx] =>
+      match parseOrder? ord, parseOrder? dflt, thr.toNat?, isz.toNat?, off.toNat?, parseNatList? shape,
+            parseIntList? newshape, parseIdx? idx with
+      | some o, some dflt, some thr, some isz, some off, some shape, some ns, some idx =>
+          let p : Params Unit := ⟨shape, isz, off, o, (), ()⟩
+          match reshape dflt p ns with
+          | .ok p' => showRes (getUnscaled (thresholdHeuristic thr) p' idx)
+          | .error _ => "ERR"
+      | _, _, _, _, _, _, _, _ => "bad-op"
+  -- ECAT frames (cur = repaired code, orig = pinned code)
+  | ["ecat", which, shape3, t, idx] =>
+      match parseNatList? shape3, t.toNat?, parseIdx? idx with
+      | some shape3, some t, some idx =>
+          let r := if which = "orig" then some (ecatGetitemOrig shape3 t idx)
+                   else if which = "cur" then some (ecatGetitem shape3 t idx) else none
+          match r with
+          | some (.ok (sh, d)) => "ok " ++ showList sh ++ " " ++ showOpt d
+          | some (.error _) => "ERR"
+          | none => "bad-op"
+      | _, _, _ => "bad-op"
+  | ["ecatarr", shape3, t] =>
+      match parseNatList? shape3, t.toNat? with
+      | some shape3, some t => let r := ecatArray shape3 t; "ok " ++ showList r.1 ++ " " ++ showList r.2
+      | _, _ => "bad-op"
+  -- PAR/REC: REC element numbers + slope/intercept slots
+  | ["par", thr, isz, shape, s, indices, idx] =>
+      match thr.toNat?, isz.toNat?, parseNatList? shape, s.toNat?, parseNatList? indices, parseIdx? idx with
+      | some thr, some isz, some shape, some s, some indices, some idx =>
+          match parrecUnscaled (thresholdHeuristic thr) shape isz s indices idx,
+                parrecScaleSlots shape s idx with
+          | .ok (sh, d), .ok (_, sl) => "ok " ++ showList sh ++ " " ++ showList d ++ " " ++ showList sl
+          | _, _ => "ERR"
+      | _, _, _, _, _, _ => "bad-op"
+  -- AFNI: element numbers + factor slots; zero mask of BRICK_FLOAT_FACS ("z"/"n" per sub-brick, "-" = absent)
+  | ["afni", thr, isz, shape, facs, idx] =>
+      match thr.toNat?, isz.toNat?, parseNatList? shape, parseIdx? idx with
+      | some thr, some isz, some shape, some idx =>
+          let fl : Option (List Bool) := if facs = "-" then none else some (facs.toList.map (· == 'z'))
+          let nvol := shape.getLast?.getD 0
+          -- factors abstractly: slot number `t+1` for a kept factor, 0 for "one"
+          let sc := afniScaling (fun (v : Nat × Bool) => v.2) ((0 : Nat), false) nvol
+                      (fl.map (fun l => l.zipIdx.map (fun (z, t) => (t + 1, z))))
+          let p : Params Unit := ⟨shape, isz, 0, .F, (), ()⟩
+          match getUnscaled (thresholdHeuristic thr) p idx, afniScaleSlots shape idx with
+          | .ok (sh, d), .ok (_, sl) =>
+              let used : List Nat := match sc with
+                | none => []
+                | some v => sl.map (fun t => (v.getD t (0, false)).1)
+              "ok " ++ showList sh ++ " " ++ showList d ++ " " ++ showList used
+          | _, _ => "ERR"
+      | _, _, _, _ => "bad-op"
+  -- MINC: C-order element numbers + image-min/max slots
+  | ["minc", nscales, shape, idx] =>
+      match nscales.toNat?, parseNatList? shape, parseIdx? idx with
+      | some ns, some shape, some idx =>
+          if ns = 0 then
+            match npIndex idx shape .C with
+            | .ok (sh, d) => "ok " ++ showList sh ++ " " ++ showList d ++ " " ++ showList (d.map (fun _ => 0))
+            | .error _ => "ERR"
+          else
+            match npIndex idx shape .C, mincScaleSlots ns shape idx with
+            | .ok (sh, d), .ok (_, sl) => "ok " ++ showList sh ++ " " ++ showList d ++ " " ++ showList sl
+            | _, _ => "ERR"
+      | _, _, _ => "bad-op"
+  -- frozen parameters: header ops after construction
+  | "frz" :: ord :: shape :: isz :: off :: sl :: it :: ops =>
+      match parseOrder? ord, parseNatList? shape, isz.toNat?, off.toNat?, parseOptInt? sl, parseOptInt? it,
+            ops.mapM parseHdrOp? with
+      | some o, some shape, some isz, some off, some sl, some it, some ops =>
+          let h : Hdr := ⟨shape, isz, off, sl, it⟩
+          let w := (World.mk h (proxyOfHdr o h)).run ops
+          showParams w.proxy ++ " | " ++ showParams (proxyOfHdr o w.hdr)
+      | _, _, _, _, _, _, _ => "bad-op"
   | _ => "bad-op"
 
 end Nb.Drv.C03
